@@ -495,6 +495,63 @@ def run_reassembly(params, known):
     return dict(name=params['name'], evaluations=count, nontrivial_keys=sorted(keys), violations=violations, known=[], samples=samples)
 
 
+def run_many_in_progress(params, known):
+    """N transfers of two segments each in progress at one receiver at the same time, for N = 2 ... 12 (and 16, 33):
+    all first segments arrive, then all second segments, in the same / the reverse / a rotated order; the
+    transfers come from one peer (N transfer numbers) or from N peers (one number each).  Every bundle is queued
+    once and pops as sent."""
+    violations = []
+    kinds = set()
+    count = 0
+    keys = set()
+
+    def viol(kind, detail, case):
+        if kind in kinds:
+            return
+        kinds.add(kind)
+        v = Violation(PROP, 'reassembly', kind, dict(), '%r: %s' % (case, detail)).as_dict()
+        v['case'] = case
+        violations.append(v)
+    for n in list(range(2, 13)) + [16, 33]:
+        for (peers, second) in itertools.product(('one-peer', 'many-peers'), ('same-order', 'reverse-order', 'rotated')):
+            count += 1
+            case = dict(transfers_in_progress=n, peers=peers, second_segments=second)
+            world = BtpuWorld(dict(role='R'))
+            bundles = [bytes([0x41 + (k % 26), k & 0xFF, 0x30 + (k % 10), 0]) for k in range(n)]
+
+            def mac(k):
+                return MAC_S if peers == 'one-peer' else '02:00:00:00:%02x:%02x' % (k >> 8, k + 16)
+
+            def num(k):
+                return 100 + k if peers == 'one-peer' else 7
+            for k in range(n):
+                world.activate(None)
+                world.net.inject(IFNAME, frame_for(enc_transfer(M_SEG, num(k), 0, bundles[k][0:2], hints=((0, struct.pack('!I', 4)),)), src=mac(k)))
+                world.run_all()
+            order = list(range(n))
+            if second == 'reverse-order':
+                order.reverse()
+            elif second == 'rotated':
+                order = order[n // 2:] + order[:n // 2]
+            for k in order:
+                world.activate(None)
+                world.net.inject(IFNAME, frame_for(enc_transfer(M_END, num(k), 1, bundles[k][2:4]), src=mac(k)))
+                world.run_all()
+            got = []
+            for sig in [s for s in world.signals if s[0] == 'recv_bundle_finished']:
+                res = world.call('recv_bundle_pop_data', sig[1])
+                got.append(bytes(res[1]) if res[0] == 'ok' else None)
+            keys.add('%d/%s/%s' % (n, peers, second))
+            if world.escaped:
+                esc = world.escaped[-1]
+                viol('exception-escaped-callback', '%s: %s' % (esc[0], esc[2]), case)
+            elif sorted(got, key=repr) != sorted(bundles, key=repr):
+                viol('queued-bundles-differ', '%d of %d bundles queued (missing: %r)' % (len(got), n, [b for b in bundles if b not in got][:3]), case)
+            if world.sig_errors:
+                viol('signal-does-not-fit-signature', repr(world.sig_errors[-1]), case)
+    return dict(name=params['name'], evaluations=count, nontrivial_keys=sorted(keys), violations=violations, known=[], samples=[])
+
+
 def run_send_receive(params, known):
     '''Real sender to real receiver.  (1) Bundles of 65535 / 65536 / 65537 / 70000 octets with no MTU
     (one bundle message), an MTU above the bundle and an Ethernet-size MTU; (2) two and three bundles
@@ -801,6 +858,7 @@ def scenarios(tier):
     out.append(dict(name='failed-request-then-good', kind='enum', runner='run_failed_request_then_good', params=dict(name='failed-request-then-good'), weight=10))
     out.append(dict(name='unusable-between', kind='enum', runner='run_unusable_between', params=dict(name='unusable-between'), weight=10))
     out.append(dict(name='send-receive', kind='enum', runner='run_send_receive', params=dict(name='send-receive'), weight=30))
+    out.append(dict(name='many-in-progress', kind='enum', runner='run_many_in_progress', params=dict(name='many-in-progress'), weight=10))
     for part in range(6):
         name = 'codec-%d/6' % (part + 1)
         out.append(dict(name=name, kind='enum', runner='run_codec', params=dict(name=name, part=part, parts=6), weight=30))
